@@ -15,7 +15,7 @@
    C04_verified_exec_in_bounds, without side conditions.  The former witnesses are kept as regression
    examples (C04_former_witnesses_now_safe). *)
 From Aelys Require Import Base.Tactics Extracted.OpcodeNumbering Extracted.VerifierTable Extracted.DispatchSites
-  Model.Verifier Model.Footprint Proofs.VerifierProofs Proofs.FootprintProofs.
+  Model.Verifier Model.Footprint Model.CallCacheLife Proofs.VerifierProofs Proofs.FootprintProofs Proofs.CallCacheLifeProofs.
 Local Open Scope N_scope.
 
 (* the scan checks every word on its linear grid: the opcode has a table entry and all its operand
@@ -108,3 +108,36 @@ Proof. exact sample_machine. Qed.
 (* every runtime guard and verifier check the proofs rely on is present in the source *)
 Example C04_guards_present : guards_present = true /\ all_calls_refresh = true /\ jump_grid_checked = true.
 Proof. exact (conj guards_present_true (conj all_calls_refresh_true jump_grid_present)). Qed.
+
+(* ---- Phase 3 ---------------------------------------------------------------------------------------- *)
+
+(* every raw access the translator finds in the dispatch arms (pointer dereference, get_unchecked; anything else
+   raw is refused by the translator) has its entry in the tables the footprint is built from, and vice versa *)
+Example C04_raw_census_covered : census_covered = true.
+Proof. exact census_covered_true. Qed.
+
+(* the dispatch arms that move ip by an immediate are all jump-checked by the verifier, and the arms that skip two
+   cache words are exactly the verifier's skip set: the control flow the theorems walk is the loop's *)
+Example C04_dispatch_control_flow_verified :
+  forallb has_jump dispatch_jump_ops = true /\ (forall w, disp_adv w = adv_of w).
+Proof. exact (conj dispatch_jumps_verified disp_adv_is_adv). Qed.
+
+(* LIFETIME of the raw code pointers in the call-site cache.  Whatever the history of copies between the global
+   tables and the layout snapshots, stores (which flush), collections (which may free anything no global names
+   and no survivor points at, and may hand the index to a new object), allocations and fills: an entry the
+   CallGlobalMono fast path is allowed to take describes live objects -- the callee cached at the site, the very
+   object the entry was filled from, and the function object reachable from it, whose buffers the pointers address *)
+Theorem C04_cache_hit_pointers_alive : forall (s : lstate) (slot ptr : N) (e : centry),
+  lreach s -> hit_allowed s slot ptr e -> entry_valid s e.
+Proof. exact hit_entry_valid_lemma. Qed.
+
+(* generations are never reused, so "same generation" above means "same object" *)
+Theorem C04_cache_generations_fresh : forall s s' : lstate, lstep s s' -> gens_below s -> gens_below s'.
+Proof. exact lstep_keeps_gens. Qed.
+
+Example C04_cache_nonvacuous : lreach ex_s1 /\ hit_allowed ex_s1 2 1 ex_e.
+Proof. exact ex_reach. Qed.
+
+Example C04_cache_protocol_present :
+  stores_flush_cache = true /\ gc_roots_globals = true /\ mono_hit_guard = true /\ cache_fills_from_callee = true.
+Proof. exact protocol_present. Qed.
